@@ -112,6 +112,7 @@ def run(ctx):
         ctx.cov["traces_validated_against_impl"] = len(terms)
     ctx.trusted += [
         "translator vh-translate/macrotable.go (api.Protocol literals by go/ast; Dissector.Macros() parsed by the real kfl.Parse into the comparison fragment)",
+        "translator vh-translate/templates.go (go/ast data flow inside the Summarize functions: template clause path vs the path the interpolated value was read from)",
         "harness/stage: the entry's own queries and every macro are evaluated by the real kfl.Apply on the entry's JSON",
         "modelled, not verified: the KFL evaluator outside the macro fragment (property C12's model); Summarize templates are exercised, not modelled",
     ]
